@@ -21,6 +21,7 @@ SYS_MC = {
     "C13": dict(layout="reg", keys={"k1", "k2"}, lookups=2),
     "C14": dict(layout="thread", keys={"k1", "k2", "k3"}, lookups=3),
     "C15": dict(layout="c15", keys={"k1", "k2", "k3"}, lookups=5),
+    "C20": dict(layout="c20", keys={"k1", "k2"}, lookups=3),
 }
 
 KINDS = (("sync", "s"), ("thread", "t"), ("async", "a"))
@@ -131,6 +132,54 @@ def scripts_for(pid, tier, seed, fx):
                 add([tf], [{"op": "call", "f": tf, "t": t, "k": k} for (t, k) in s]
                     + [{"op": "call", "f": tf, "t": t, "k": k} for t in (1, 2, 3) for k in (1, 2)], threads=3)
             rnd([tf, "g_a"], 10 if thorough else 4, 60, threads=3, nkeys=3, registry=True)
+    elif pid == "C20":
+        for f in ("a_await1", "a_await2_ttl2", "a_await3_res", "a_await2_mem"):
+            fi = fx[f]
+            aw = fi["awaits"]
+            cn = fi["cache_name"]
+            mid_alpha = [{"op": "call", "f": f, "k": 1, "size": 60}, {"op": "call", "f": f, "k": 2, "size": 60},
+                         {"op": "call", "f": f, "k": 3, "size": 60},
+                         {"op": "inv_with", "x": cn, "sel": ["1"]}, {"op": "inv_all_with", "sel": {cn: ["1", "2"]}},
+                         {"op": "start", "task": "B", "f": f, "k": 1, "size": 60},
+                         {"op": "start", "task": "B", "f": f, "k": 2, "size": 60}]
+            if fi["cfg"]["ttl"]:
+                mid_alpha.append({"op": "tick", "d": fi["cfg"]["ttl"]})
+            if fi["isResult"]:
+                mid_alpha.append({"op": "call", "f": f, "k": 1, "ok": False})
+            probe = [{"op": "call", "f": f, "k": 1, "size": 60}, {"op": "call", "f": f, "k": 2, "size": 60},
+                     {"op": "call", "f": f, "k": 4, "size": 60}, {"op": "call", "f": f, "k": 1, "size": 60}]
+            for pre in ([], [{"op": "call", "f": f, "k": 1, "size": 60}, {"op": "call", "f": f, "k": 2, "size": 60}]):
+                for s_at in range(0, aw):              # gates already passed when the others run
+                    for L in (1, 2) if not thorough else (1, 2, 3):
+                        for mid in seqs(range(len(mid_alpha)), L):
+                            for ending in ("finish", "drop"):
+                                for okA in ((True, False) if fi["isResult"] else (True,)):
+                                    ops = [dict(o) for o in pre]
+                                    ops.append({"op": "start", "task": "A", "f": f, "k": 1, "ok": okA, "size": 60})
+                                    for g in range(1, s_at + 1):
+                                        ops.append({"op": "resume", "task": "A", "upto": g})
+                                    hasB = False
+                                    for j in mid:
+                                        o = dict(mid_alpha[j])
+                                        if o["op"] == "start":
+                                            if hasB:
+                                                continue
+                                            hasB = True
+                                        ops.append(o)
+                                    if ending == "finish":
+                                        for g in range(s_at + 1, aw + 1):
+                                            ops.append({"op": "resume", "task": "A", "upto": g})
+                                    else:
+                                        ops.append({"op": "drop", "task": "A"})
+                                    if hasB:
+                                        if rng.random() < 0.5:
+                                            ops.append({"op": "resume", "task": "B", "upto": aw})
+                                        else:
+                                            ops.append({"op": "drop", "task": "B"})
+                                    add([f], ops + probe)
+        if not thorough and len(out) > 2500:
+            rng.shuffle(out)
+            del out[2500:]
     elif pid == "C15":
         names = ["s_plain", "a_plain", "s_lru2", "a_lfu3_ttl2", "s_ttl1", "a_ttl1", "s_res", "a_res_cif",
                  "g_alias", "g_alias_async", "g_a", "g_dep", "s_inv", "a_inv_ttl2", "s_mem_lru", "a_mem_fifo"]
